@@ -4,7 +4,7 @@
 //@ harness c07_range_vs_height kind=bounded tier=quick fns=pmmr::bintree_range,pmmr::bintree_postorder_height bound=pos0_<_2^40
 //@ harness c07_leftmost_vs_height kind=bounded tier=quick fns=pmmr::bintree_leftmost,pmmr::bintree_postorder_height bound=pos0_<_2^40
 //@ harness c07_rightmost_vs_height kind=bounded tier=quick fns=pmmr::bintree_rightmost,pmmr::bintree_postorder_height bound=pos0_<_2^40
-//@ harness c07_family_vs_height kind=bounded tier=quick fns=pmmr::family,pmmr::is_left_sibling,pmmr::bintree_postorder_height bound=pos0_<_2^40
+//@ harness c07_family_vs_height kind=bounded tier=thorough optional=1 fns=pmmr::family,pmmr::is_left_sibling,pmmr::bintree_postorder_height bound=pos0_<_2^40
 
 #[kani::proof]
 #[kani::unwind(66)]
